@@ -5,7 +5,8 @@
    src/munged/work.c into gen/GenWork.v on every run.
    All statements are for every worker count n >= 1, every label sequence
    (= every interleaving of acceptor, workers, wake-ups, cancellation, with
-   every queue length) that the LTS can run from its initial state.          *)
+   every queue length) that the LTS can run from its initial state.
+   The acceptor (job.c, job_accept) is in Properties_C12_job.v.             *)
 From Coq Require Import List Arith Bool Permutation.
 From MV Require Import WorkModel WorkProofs GenWork.
 Import ListNotations.
